@@ -22,6 +22,7 @@ import DSProofs.Lemmas.BloomHist
 import DSProofs.Lemmas.BloomLocal
 import DSProofs.Lemmas.BloomWitness
 import DSProofs.Lemmas.BloomFixed19
+import DSProofs.Lemmas.BloomReaders
 import DSModel.Bloom.Hash
 import DSGen.Bloom
 namespace DS.Bloom
@@ -31,11 +32,12 @@ def genParams : Params :=
   { dirty := DSGen.bloom_DIRTY_BITS_VALUE, preEmpty := DSGen.bloom_PREAMBLE_LONGS_EMPTY,
     preStd := DSGen.bloom_PREAMBLE_LONGS_STANDARD, family := DSGen.bloom_FAMILY_ID, serVer := DSGen.bloom_SER_VER,
     emptyMask := DSGen.bloom_EMPTY_FLAG_MASK, nbsOff := DSGen.bloom_NUM_BITS_SET_OFFSET_BYTES,
-    bitsOff := DSGen.bloom_BIT_ARRAY_OFFSET_BYTES, maxBits := DSGen.bloom_MAX_FILTER_SIZE_BITS }
+    bitsOff := DSGen.bloom_BIT_ARRAY_OFFSET_BYTES, maxBits := DSGen.bloom_MAX_FILTER_SIZE_BITS,
+    strict := DSGen.bloom_READER_STRICT }
 
 /-- side conditions of the theorems, discharged on the CURRENT header constants: the count sits at byte 24, the
 bit array at byte 32 (where the sequential readers/writers put them), the dirty marker is 2^64-1 ≠ any count. -/
-theorem genParams_layout : genParams.Layout ∧ genParams.dirty = 2 ^ 64 - 1 ∧ genParams = refParams :=
+theorem genParams_layout : genParams.Layout ∧ genParams.dirty = 2 ^ 64 - 1 ∧ { genParams with strict := false } = refParams :=
   ⟨⟨by decide, by decide⟩, by decide, by decide⟩
 
 /-- … and the wire constants the readers rely on (side condition `Params.Wire` of the repaired-model theorems). -/
@@ -208,6 +210,34 @@ theorem bloom_qau_prior_fixed {ι : Type} [DecidableEq ι] (P : Params) (hP : P.
 example : (opQau refParams Fix.asCoded (run refParams Fix.asCoded hfU64 World.empty [.new 0 64 3 7, .upd 0 5]) 0 (hfU64 5 7)).2 = .bool true ∧
           (opQau refParams Fix.asCoded (run refParams Fix.asCoded hfU64 World.empty [.new 0 64 3 7, .upd 0 5]) 0 (hfU64 6 7)).2 = .bool false := by
   decide +kernel
+
+/-! ## the readers (deserialize / wrap / writable_wrap)
+
+`Params.strict` (DSGen `bloom_READER_STRICT`, read from the CURRENT bloom_filter_impl.hpp by tools/trules/bloom.py) selects the
+reader shape the model follows: `false` = the pinned readers (no consistency check between preamble longs and the empty flag,
+zero counts accepted, 32-bit `num_longs << 6`, bit-array length unchecked for wraps — the model marks those inputs `.oob`,
+"outside the modelled domain", C11's subject), `true` = the validated readers.  Every theorem of this file is for BOTH
+shapes (they are parametric in `P`); the witnesses use `refParams` (pinned shape). -/
+
+/-- VALIDATED READERS (`P.strict = true`): deserialize / wrap / writable_wrap of ANY existing block either throws or returns a
+filter — never the model's "outside the modelled domain" outcome (no count read past a short buffer, no bit array outside the
+block, no zero capacity) —, and a returned filter has at least one hash function, a positive capacity, and, when it wraps the
+block, a bit array that lies inside it.  (For the pinned readers these were the `.oob` cases.) -/
+theorem bloom_readers_current (P : Params) (hs : P.strict = true) (hstd : P.preStd = 4) (w : World) (k : WrapKind) (m v : Nat) (b : Block)
+    (hm : w.blocks m = some b) :
+    (opWrap P w k m v).2 ≠ .oob ∧
+    (∀ f, (opWrap P w k m v).2 = .ok → (opWrap P w k m v).1.filters v = some f →
+        1 ≤ f.numHashes ∧ 0 < f.capBits ∧ (isMem f = true → 32 + f.capBits / 8 ≤ b.len)) :=
+  opWrap_strict P hs hstd w k m v b hm
+
+/-- instances: an image with zero hash functions and a wrap of a block shorter than its declared bit array are refused by the
+validated readers; the pinned readers accept the first and are outside the modelled domain on the second. -/
+example :
+    let img0 : Block := ⟨40, (image refParams World.empty { (mkOwned 64 3 7) with numHashes := 0, nbs := 1 }).val⟩
+    let short : Block := ⟨39, (image refParams World.empty { (mkOwned 64 3 7) with nbs := 1 }).val⟩
+    let w : World := (World.empty.setBlock 0 img0).setBlock 1 short
+    (opWrap { refParams with strict := true } w .deser 0 5).2 = .thrw ∧ (opWrap refParams w .deser 0 5).2 = .ok ∧
+    (opWrap { refParams with strict := true } w .wrap 1 5).2 = .thrw ∧ (opWrap refParams w .wrap 1 5).2 = .oob := by decide +kernel
 
 /-! ## bloom_setops_bitwise -/
 
